@@ -162,3 +162,159 @@ func scanGhostWrites(w *World, ghost string) []string {
 	}
 	return bad
 }
+
+// checkDeterminism (C18): a Go function of its inputs can differ between runs only through map iteration order,
+// goroutines/select, time/rand, or writes to package-level state.  For the packages of the compile pipeline every
+// such source must be absent, or - for a range over a map - carry an order-independence argument:
+//   (a) the loop has per-key invariants over visited() in a contract under proof, or
+//   (b) the loop only appends to a slice that is passed to sort.Strings before the function returns.
+func checkDeterminism(w *World, pkgs []string) []*Result {
+	var out []*Result
+	mk := func(name string, bad []string) {
+		ob := &Obligation{Name: name, Kind: "frame", caseSel: -1}
+		r := &Result{Ob: ob, Status: "unsat", Solver: "ssa-scan"}
+		if len(bad) > 0 {
+			sort.Strings(bad)
+			r.Status = "sat"
+			r.Output = strings.Join(bad, "; ")
+		}
+		out = append(out, r)
+	}
+	inPkgs := func(fn *ssa.Function) bool {
+		p := pkgPathOf(fn)
+		for _, q := range pkgs {
+			if p == repoModule+"/"+q {
+				return true
+			}
+		}
+		return false
+	}
+	var fns []*ssa.Function
+	for fn := range ssautil.AllFunctions(w.Prog) {
+		if inPkgs(fn) && fn.Blocks != nil {
+			fns = append(fns, fn)
+		}
+	}
+	sort.Slice(fns, func(i, j int) bool { return fns[i].String() < fns[j].String() })
+	var badRange, badConc, badTime, badGlob []string
+	nRange := 0
+	for _, fn := range fns {
+		isInit := fn.Name() == "init" || strings.HasPrefix(fn.Name(), "init#")
+		live := liveBlocks(fn)
+		for _, b := range fn.Blocks {
+			if !live[b] {
+				continue
+			}
+			for _, ins := range b.Instrs {
+				switch x := ins.(type) {
+				case *ssa.Range:
+					if _, isMap := x.X.Type().Underlying().(*types.Map); isMap {
+						nRange++
+						if isInit {
+							continue // init-time construction of package tables runs once before any compilation (not analysed)
+						}
+						if !rangeOrderFree(w, fn, x) {
+							badRange = append(badRange, fmt.Sprintf("%s (%s)", shortFuncName(fn.String()), w.Prog.Fset.Position(x.Pos())))
+						}
+					}
+				case *ssa.Go, *ssa.Select:
+					badConc = append(badConc, shortFuncName(fn.String()))
+				case ssa.CallInstruction:
+					if callee := x.Common().StaticCallee(); callee != nil && callee.Pkg != nil {
+						switch callee.Pkg.Pkg.Path() {
+						case "time", "math/rand", "crypto/rand":
+							badTime = append(badTime, shortFuncName(fn.String())+" calls "+callee.String())
+						}
+					}
+				case *ssa.Store:
+					if g, ok := x.Addr.(*ssa.Global); ok && !isInit && !globalWriteAllowed(w, g) {
+						badGlob = append(badGlob, fmt.Sprintf("%s writes %s", shortFuncName(fn.String()), shortFuncName(g.String())))
+					}
+				}
+			}
+		}
+	}
+	mk("frame:determinism:map-ranges", badRange)
+	mk("frame:determinism:no-goroutines", badConc)
+	mk("frame:determinism:no-time-rand", badTime)
+	mk("frame:determinism:no-global-writes", badGlob)
+	out[0].Output += fmt.Sprintf(" (%d map ranges examined)", nRange)
+	return out
+}
+
+func rangeOrderFree(w *World, fn *ssa.Function, rng *ssa.Range) bool {
+	// (a) contract with per-key invariants on some loop of the function
+	if c := w.CS.Funcs[fn.String()]; c != nil {
+		for _, ls := range c.Loops {
+			for _, inv := range ls.Invs {
+				if strings.Contains(inv.Src, "visited(") {
+					return true
+				}
+			}
+		}
+	}
+	// (b) collect-then-sort
+	var appended ssa.Value
+	sorted := false
+	for _, b := range fn.Blocks {
+		for _, ins := range b.Instrs {
+			call, ok := ins.(*ssa.Call)
+			if !ok {
+				continue
+			}
+			if bi, ok := call.Common().Value.(*ssa.Builtin); ok && bi.Name() == "append" {
+				appended = call.Common().Args[0]
+			}
+			if callee := call.Common().StaticCallee(); callee != nil && (callee.String() == "sort.Strings" || callee.String() == "sort.Sort" || callee.String() == "sort.Stable") {
+				// the slice that is sorted must be the one that is returned
+				for _, b2 := range fn.Blocks {
+					for _, i2 := range b2.Instrs {
+						if ret, ok := i2.(*ssa.Return); ok {
+							for _, rv := range ret.Results {
+								if rv == call.Common().Args[0] {
+									sorted = true
+								}
+							}
+						}
+					}
+				}
+			}
+			_ = appended
+		}
+	}
+	if sorted {
+		// every store in the function must be an append result flowing to the sorted slice: no MapUpdate, no field stores
+		for _, b := range fn.Blocks {
+			for _, ins := range b.Instrs {
+				switch ins.(type) {
+				case *ssa.MapUpdate:
+					return false
+				case *ssa.Store:
+					switch a := ins.(*ssa.Store).Addr.(type) {
+					case *ssa.FieldAddr:
+						if _, local := a.X.(*ssa.Alloc); !local {
+							return false
+						}
+					case *ssa.IndexAddr:
+						if _, local := a.X.(*ssa.Alloc); !local {
+							return false
+						}
+					case *ssa.Global:
+						return false
+					}
+				}
+			}
+		}
+		return true
+	}
+	return false
+}
+
+func globalWriteAllowed(w *World, g *ssa.Global) bool {
+	for _, d := range w.CS.AllowGlobalWrite {
+		if g.Pkg != nil && g.Pkg.Pkg.Path() == d.Pkg && g.Name() == d.Spec {
+			return true
+		}
+	}
+	return false
+}
